@@ -1,18 +1,23 @@
-"""Contract for ADInterpreter.eval_jaxpr_adev (adev/core.py) - the CPS forward-mode interpreter  (C29, C04).
+"""Contract for ADInterpreter.eval_jaxpr_adev / forward_mode (adev/core.py) - the CPS forward-mode interpreter  (C29, C04).
 
-Schematic programs (a jaxpr with a concrete SHAPE - a sequence of `s` = sample_p site and `p` = ordinary unary primitive - and
-symbolic atoms, primitives, sampled values) are run through the REAL eval_jaxpr_adev, the REAL closures _sample_dual_kont /
-eval_jaxpr_iterate_dual, the REAL Dual helpers and Environment.  The sampling primitives are abstract and honour the contract
-proved of the concrete ones in contracts/adev.py (REINFORCE, TailCallADEVPrimitive, ...): jvp_estimate(key, dual_tree, konts)
-draws its value with one key derived from `key` and tail-calls the dual continuation with ANOTHER key derived from `key`,
-independent of the first, and with the dual of the drawn value.
+Schematic programs (a jaxpr with a concrete SHAPE - a sequence of `s` = sample_p site, `p` = ordinary unary primitive and
+`c` = a cond_p equation whose two branch jaxprs each consist of one sample site - and symbolic atoms, primitives, sampled
+values) are run through the REAL eval_jaxpr_adev, the REAL closures _sample_dual_kont / _cond_dual_kont /
+eval_jaxpr_iterate_dual, the REAL forward_mode (for the branches of a cond), the REAL Dual helpers and Environment.  The
+sampling primitives are abstract and honour the contract proved of the concrete ones in contracts/adev.py (REINFORCE,
+TailCallADEVPrimitive, ...): jvp_estimate(key, dual_tree, konts) draws its value with one key derived from `key` and tail-calls
+the dual continuation with ANOTHER key derived from `key`, independent of the first, and with the dual of the drawn value.
+Staging a branch (stage(jaxpr_as_fun(branch))(*primals)) is external: it gives the branch's jaxpr back (A11).
 
 Obligations per shape (bounded in shape - the evidence says so - unbounded in atoms, values, keys):
-  * each site's primitive is invoked with the key its predecessor handed to the continuation (the first one with the caller's
-    key), so the randomness of different sites is independent (theory/keys.py);
+  * straight-line shapes: each site's primitive is invoked with the key its predecessor handed to the continuation (the first
+    one with the caller's key);
+  * every shape: the sampling keys of the sites executed along one path (for a cond: per branch) are pairwise independent and
+    derive from the caller's key (theory/keys.py) - stated on the keys the primitives are observed to receive, not on how the
+    interpreter derives them;
   * the arguments a site sees are the values computed upstream (data flow through the environment, ordinary primitives applied
-    to primals, their tangents by the registered JVP rule);
-  * the interpreter returns the dual of the output variable."""
+    to primals, their tangents by the registered JVP rule; after a cond: the value of the executed branch);
+  * the interpreter returns the dual of the output variable (for a cond: of the executed branch's path)."""
 import z3
 
 from pyvc.task import task
@@ -25,24 +30,27 @@ EV = A + ":ADInterpreter.eval_jaxpr_adev"
 FUNCS = [EV, A + ":ADInterpreter.flat_unzip", A + ":Dual.tree_pure", A + ":Dual.dual_tree", A + ":Dual.tree_primal",
          A + ":Dual.tree_tangent", A + ":Dual.tree_leaves", ENV + ":Environment.read", ENV + ":Environment.write",
          ENV + ":Environment.copy"]
+FUNCS_COND = FUNCS + [A + ":ADInterpreter.forward_mode", A + ":Dual.tree_unzip"]
 
 
 def dual(E, p, t):
     return E.new(A + ":Dual", primal=p, tangent=t)
 
 
-def _program(shape):
-    @task(f"adev.interpreter.program[{shape}]", props=["C29", "C04"], functions=FUNCS)
-    def t(E):
-        from theory import keys as KY
-        I = E.I
-        V = Vars(E)
-        sample_p = E.opaque("sample_p", "Primitive")
+class Machine:
+    """the abstract surroundings of the interpreter: sample_p, abstract sampling primitives (recording their calls), ordinary
+    primitives with their bind / JVP rule, the variables of a schematic jaxpr"""
+
+    def __init__(self, E):
+        self.E, I = E, E.I
+        self.V = Vars(E)
+        self.sample_p = sample_p = E.opaque("sample_p", "Primitive")
         I.module_cache[(A, "sample_p")] = sample_p
-        split = E.ctx.fn("split", U, z3.IntSort(), z3.IntSort(), U)
-        draw = E.ctx.fn("adev_site_draw", U, U, U, U)          # (primitive, sampling key, argument primals)
-        dtan = E.ctx.fn("adev_site_draw_tangent", U, U, U, U, U)
-        calls = []
+        self.split = split = E.ctx.fn("split", U, z3.IntSort(), z3.IntSort(), U)
+        self.draw = draw = E.ctx.fn("adev_site_draw", U, U, U, U)          # (primitive, sampling key, argument primals)
+        self.dtan = dtan = E.ctx.fn("adev_site_draw_tangent", U, U, U, U, U)
+        self.calls = calls = []
+        self.sites, self.prims, self.vars = [], [], []
 
         def jvp_estimate(I_, prim, key_, dual_tree, konts):
             """abstract sampling primitive (contract proved of the concrete ones): value drawn with split(key)[1], the dual
@@ -58,8 +66,8 @@ def _program(shape):
             _, kdual = konts
             return I_.call(kdual, [UVal(k_cont, "key"), dual(E, v, dv)], {})
         I.abstract_methods[("ADEVPrimitive", "jvp_estimate")] = jvp_estimate
-        bind1 = E.ctx.fn("prim_bind1", U, U, U)
-        jvp1 = E.ctx.fn("prim_jvp_tangent1", U, U, U, U)
+        self.bind1 = bind1 = E.ctx.fn("prim_bind1", U, U, U)
+        self.jvp1 = jvp1 = E.ctx.fn("prim_jvp_tangent1", U, U, U, U)
 
         def bind(I_, prim, *args, **params):
             r = bind1(prim.t, I_.to_u(tuple(args)))
@@ -83,35 +91,53 @@ def _program(shape):
                 raise KeyError(name)
         I.ext_consts = dict(getattr(I, "ext_consts", {}) or {})
         I.ext_consts["jax.interpreters.ad.primitive_jvps"] = JvpTable()
-        I.ext_consts["jax.lax.cond_p"] = E.opaque("cond_p", "Primitive")
-        E.assume(E.I.to_u(I.ext_consts["jax.lax.cond_p"]) != sample_p.t)
-        prims, sites, eqns = [], [], []
-        xv = V.atom("xv", "var")
-        E.assume(z3.Not(V.isD(xv.t)))
-        cur = xv
-        for ch in shape:
-            out = V.atom(f"v{len(eqns)}", "var")
-            E.assume(z3.Not(V.isD(out.t)))
-            if ch == "p":
-                pr = E.opaque(f"p{len(prims)}", "Primitive")
-                E.assume(z3.And(pr.t != sample_p.t, pr.t != I.to_u(I.ext_consts["jax.lax.cond_p"])))
-                prims.append(pr)
-                eqns.append(Rec(primitive=pr, params={}, invars=[cur], outvars=[out], source_info=Rec(traceback=None)))
-            else:
-                ap = E.opaque(f"adev_prim{len(sites)}", "ADEVPrimitive")
-                sites.append(ap)
-                eqns.append(Rec(primitive=sample_p, params={"in_tree": ("AP", len(sites) - 1), "num_consts": 0}, invars=[cur],
-                                outvars=[out], source_info=Rec(traceback=None)))
-            cur = out
-        allv = [xv] + [e.outvars[0] for e in eqns]
-        for i in range(len(allv)):
-            E.assume(V.isV(allv[i].t))
-            for j in range(i):
-                E.assume(V.count(allv[i]) != V.count(allv[j]))
+        self.cond_p = I.ext_consts["jax.lax.cond_p"] = E.opaque("cond_p", "Primitive")
+        E.assume(I.to_u(self.cond_p) != sample_p.t)
+        sites = self.sites
         I.ext["jax.tree_util.tree_unflatten"] = lambda I_, tree, leaves: (
             [sites[tree[1]]] + list(I_.iterate(leaves)) if isinstance(tree, tuple) and tree[0] == "AP" else
+            list(I_.iterate(leaves)) if isinstance(tree, tuple) and tree[0] == "OUTLIST" else
             UVal(E.ctx.fn("tree_unflatten", U, U, U)(I_.to_u(tree), I_.to_u(list(I_.iterate(leaves))))))
         I.ext["jax._src.source_info_util.user_context"] = lambda I_, *a, **k: None
+
+    def var(self, name):
+        E, V = self.E, self.V
+        v = V.atom(name, "var")
+        E.assume(z3.And(z3.Not(V.isD(v.t)), V.isV(v.t)))
+        for o in self.vars:
+            E.assume(V.count(v) != V.count(o))
+        self.vars.append(v)
+        return v
+
+    def prim_eqn(self, cur, out):
+        E, I = self.E, self.E.I
+        pr = E.opaque(f"p{len(self.prims)}", "Primitive")
+        E.assume(z3.And(pr.t != self.sample_p.t, pr.t != I.to_u(self.cond_p)))
+        self.prims.append(pr)
+        return Rec(primitive=pr, params={}, invars=[cur], outvars=[out], source_info=Rec(traceback=None)), pr
+
+    def site_eqn(self, cur, out):
+        ap = self.E.opaque(f"adev_prim{len(self.sites)}", "ADEVPrimitive")
+        self.sites.append(ap)
+        return Rec(primitive=self.sample_p, params={"in_tree": ("AP", len(self.sites) - 1), "num_consts": 0}, invars=[cur],
+                   outvars=[out], source_info=Rec(traceback=None)), ap
+
+
+def _program(shape):
+    @task(f"adev.interpreter.program[{shape}]", props=["C29", "C04"], functions=FUNCS)
+    def t(E):
+        from theory import keys as KY
+        I = E.I
+        M = Machine(E)
+        calls, bind1, jvp1 = M.calls, M.bind1, M.jvp1
+        eqns = []
+        xv = M.var("xv")
+        cur = xv
+        for ch in shape:
+            out = M.var(f"v{len(eqns)}")
+            eqns.append((M.prim_eqn if ch == "p" else M.site_eqn)(cur, out)[0])
+            cur = out
+        prims, sites = M.prims, M.sites
         jaxpr = Rec(constvars=[], invars=[xv], eqns=eqns, outvars=[cur])
         k = key(E)
         x, dx = E.opaque("x", "array"), E.opaque("dx", "array")
@@ -152,3 +178,102 @@ def _program(shape):
 
 for _s in ("s", "ss", "sps", "pss", "sss"):
     _program(_s)
+
+
+def _cond_program(shape):
+    """shape: a string over s, p with exactly one `c` (the cond).  The cond's predicate is a second input variable; each of
+    its two branch jaxprs is one sample site applied to the branch's input variable."""
+    @task(f"adev.interpreter.program[{shape}]", props=["C29", "C04"], functions=FUNCS_COND)
+    def t(E):
+        from theory import keys as KY
+        I = E.I
+        M = Machine(E)
+        calls, bind1, jvp1 = M.calls, M.bind1, M.jvp1
+        eqns, kinds = [], []
+        xv, bv = M.var("xv"), M.var("bv")
+        cur = xv
+        branches = None
+        for ch in shape:
+            out = M.var(f"v{len(eqns)}")
+            if ch == "c":
+                brs = []
+                for nm in ("false", "true"):          # jax stores the branches of cond_p as (false branch, true branch)
+                    bi, bo = M.var(f"{nm}_in"), M.var(f"{nm}_out")
+                    eq, ap = M.site_eqn(bi, bo)
+                    brs.append(dict(jaxpr=Rec(constvars=[], invars=[bi], eqns=[eq], outvars=[bo]), site=ap, name=nm))
+                branches = brs
+                markers = tuple(("BRANCH", j) for j in range(2))
+                eqns.append(Rec(primitive=M.cond_p, params={"branches": markers}, invars=[bv, cur], outvars=[out],
+                                source_info=Rec(traceback=None)))
+                kinds.append(("c", None))
+            elif ch == "p":
+                eq, pr = M.prim_eqn(cur, out)
+                eqns.append(eq)
+                kinds.append(("p", pr))
+            else:
+                eq, ap = M.site_eqn(cur, out)
+                eqns.append(eq)
+                kinds.append(("s", ap))
+            cur = out
+        # A11 (staging is external): jaxpr_as_fun(branch) staged on the branch's operands gives the branch's jaxpr back, no
+        # constants, one output (a list of length one)
+        I.ext["jax.extend.core.jaxpr_as_fun"] = lambda I_, fn: ("JFUN", fn)
+
+        def stage(I_, f):
+            def staged(I2, *primals):
+                assert isinstance(f, tuple) and f[0] == "JFUN", f
+                j = f[1][1]
+                closed = Rec(jaxpr=branches[j]["jaxpr"], literals=[])
+                return (closed, (None, None, NativeFn("out_tree", lambda I3: ("OUTLIST", 1))))
+            return NativeFn("staged", staged)
+        I.module_cache[(A, "stage")] = NativeFn("stage", stage)
+        I.module_cache[(A, "jaxpr_as_fun")] = NativeFn("jaxpr_as_fun", lambda I_, fn: ("JFUN", fn))
+        jaxpr = Rec(constvars=[], invars=[xv, bv], eqns=eqns, outvars=[cur])
+        k = key(E)
+        x, dx = E.opaque("x", "array"), E.opaque("dx", "array")
+        b, db = E.opaque("b", "array"), E.opaque("db", "array")
+        E.assume(z3.Not(I.T.is_None(x.t)))
+        st, res = E.attempt(lambda: E.call(EV, k, jaxpr, [], [dual(E, x, dx), dual(E, b, db)]))
+        E.require(f"C29.eval_jaxpr_adev.program_does_not_raise[{shape}]", st == "ok", raised=str(res))
+        E.require(f"C29.eval_jaxpr_adev.returns_a_dual[{shape}]", is_obj(res, "Dual"))
+        ci_pos = shape.index("c")
+        n_before, n_after = shape[:ci_pos].count("s"), shape[ci_pos + 1:].count("s")
+        # lax.cond is modelled by running both branch functions on the operands and selecting (A4); the true branch is the first
+        # function handed to lax.cond.  Each branch function runs its site and then - through the continuation - the rest.
+        E.require(f"C29.eval_jaxpr_adev.each_branch_runs_its_site_and_then_the_rest_of_the_program[{shape}]",
+                  len(calls) == n_before + 2 * (1 + n_after))
+        from theory.externals import as_flag_term
+        pred = as_flag_term(I, b)
+        first_is_true = calls[n_before]["prim"] is branches[1]["site"]
+        E.require(f"C29.eval_jaxpr_adev.the_true_branch_is_run_under_a_true_predicate[{shape}]",
+                  first_is_true and calls[n_before + 1 + n_after]["prim"] is branches[0]["site"])
+        for br_i, (nm, cond_holds) in enumerate((("true", pred), ("false", z3.Not(pred)))):
+            path = calls[:n_before] + calls[n_before + br_i * (1 + n_after): n_before + (br_i + 1) * (1 + n_after)]
+            pv, tv = x.t, dx.t
+            ci = 0
+            for kind, what in kinds:
+                if kind == "p":
+                    pv, tv = bind1(what.t, I.to_u((UVal(pv),))), jvp1(what.t, I.to_u((UVal(pv),)), I.to_u((UVal(tv),)))
+                    continue
+                c = path[ci]
+                if kind == "s":
+                    E.require(f"C29.eval_jaxpr_adev.sites_run_in_program_order[{shape}]", c["prim"] is what)
+                E.prove(f"C29.eval_jaxpr_adev.site_{ci}_sees_the_values_computed_upstream[{shape}][{nm} branch]", z3.And(
+                    c["primals"] == I.to_u([UVal(pv)]), c["tangents"] == I.to_u([UVal(tv)])))
+                pv, tv = c["v"].t, c["dv"].t
+                ci += 1
+            E.prove(f"C29.eval_jaxpr_adev.result_is_the_dual_of_the_output_variable[{shape}][{nm} branch]", z3.Implies(cond_holds, z3.And(
+                I.to_u(res.fields["primal"]) == pv, I.to_u(res.fields["tangent"]) == tv)))
+            samp = [c["k_samp"] for c in path]
+            for a in range(len(samp)):
+                E.prove(f"C04.eval_jaxpr_adev.site_{a}_draws_with_a_key_derived_from_the_given_key[{shape}][{nm} branch]",
+                        KY.derived_from(I, samp[a], k.t), also=["C29"])
+                for b_ in range(a + 1, len(samp)):
+                    E.prove(f"C04.eval_jaxpr_adev.sites_{a}_and_{b_}_draw_independently[{shape}][{nm} branch]",
+                            KY.independent(I, samp[a], samp[b_]), also=["C29"])
+        E.refutable(f"adev.interpreter.program[{shape}]", I.to_u(res.fields["primal"]) == x.t)
+    return t
+
+
+for _s in ("c", "cs", "sc", "scs", "cps"):
+    _cond_program(_s)
